@@ -192,11 +192,10 @@ fn expand_args(line: &str, args: &[String]) -> String {
                 let is_assignment = libs::re::re_contains(&head, r"^[a-zA-Z_][a-zA-Z0-9_]*=");
                 let whole_value = libs::re::re_contains(&head, r"^[a-zA-Z_][a-zA-Z0-9_]*=$") && ends_word;
                 if in_dq {
-                    // inside double quotes the value is one piece of text
-                    match value {
-                        Some(v) => out.push_str(&v),
-                        None => out.push_str(&args[1..].join(" ")),
-                    }
+                    // inside double quotes the value is one piece of text:
+                    // the characters that mean something there stay data
+                    let v = value.unwrap_or_else(|| args[1..].join(" "));
+                    out.push_str(&shell::protect_quoted_value(&v));
                 } else if whole_value {
                     // `NAME=$1`: the value is quoted as a whole, which is
                     // what the assignment parser can read back
